@@ -206,7 +206,15 @@ func parseSubstvar(input *input, relation *Relation) error {
 		case '}':
 			input.Next()
 			relation.Possibilities = append(relation.Possibilities, *ret)
-			return nil
+			/* A substvar is a whole alternative: only the end of the
+			 * alternative may follow it. */
+			eatWhitespace(input)
+			switch peek := input.Peek(); peek {
+			case ',', '|', 0:
+				return nil
+			default:
+				return fmt.Errorf("Trailing garbage after a substvar: %c", peek)
+			}
 		}
 		ret.Name += string([]byte{input.Next()})
 	}
